@@ -16,6 +16,10 @@ import (
 // C17 — no silent truncation: long lines and large files are processed completely.
 
 type C17Case struct {
+	// IncAffix: the included file declares a prefix and / or suffix of its own (generate-include, generate-include-except)
+	IncAffix string `json:"inc_affix,omitempty"`
+	// Align: the long line's length is chosen so that the file's bytes up to and including its line feed are exactly 64 KiB
+	Align bool   `json:"align,omitempty"`
 	Cmd     string   `json:"cmd"`  // generate | generate-include | format | renumber | copyright
 	Long    string   `json:"long"` // entry | comment (what the long line is)
 	Len     int      `json:"len"`
@@ -54,6 +58,19 @@ func genC17(t *rapid.T) C17Case {
 	perm := rapid.Permutation(c17Words).Draw(t, "perm")
 	c.Words = perm[:n]
 	c.Pos = rapid.IntRange(0, n).Draw(t, "pos")
+	if c.Cmd == "generate-include" || c.Cmd == "generate-include-except" {
+		c.IncAffix = rapid.SampledFrom([]string{"", "", "prefix", "suffix", "both"}).Draw(t, "incaffix")
+	}
+	if strings.HasPrefix(c.Cmd, "generate") && c.Cmd != "generate-definition" && c.Cmd != "generate-cmdline" {
+		if rapid.IntRange(0, 5).Draw(t, "align") == 0 || (c.IncAffix != "" && rapid.Bool().Draw(t, "alignaffix")) {
+			// a cumulative boundary instead of a per-line one: everything up to the end of the long line fills 64 KiB exactly
+			c.Align, c.Long = true, "entry"
+			c.Len = 65536 - 1
+			for _, w := range c.Words[:c.Pos] {
+				c.Len -= len(w) + 1
+			}
+		}
+	}
 	return c
 }
 
@@ -228,6 +245,21 @@ func checkC17(c C17Case) Outcome {
 		lines := insert(c.Words, long)
 		tree := cli.Tree{"regex-assembly/": ""}
 		stdin := join(lines)
+		pre, suf := "", ""
+		if c.IncAffix == "prefix" || c.IncAffix == "both" {
+			pre = "pre-"
+			stdin = "##!^ pre-\n" + stdin
+		}
+		if c.IncAffix == "suffix" || c.IncAffix == "both" {
+			suf = "-suf"
+			stdin = "##!$ -suf\n" + stdin
+		}
+		if c.IncAffix != "" {
+			out.Labels = append(out.Labels, "include-file-with-own-prefix-or-suffix")
+		}
+		if c.Align {
+			out.Labels = append(out.Labels, "lines-up-to-the-long-one-fill-64KiB-exactly")
+		}
 		switch c.Cmd {
 		case "generate-include":
 			tree["regex-assembly/include/big.ra"] = stdin
@@ -253,9 +285,12 @@ func checkC17(c C17Case) Outcome {
 			out.Labels = append(out.Labels, "loud-failure")
 			break
 		}
-		must := append([]string{}, c.Words...)
+		must := []string{}
+		for _, w := range c.Words {
+			must = append(must, pre+w+suf)
+		}
 		if c.Long == "entry" {
-			must = append(must, tok)
+			must = append(must, pre+tok+suf)
 		}
 		if c.Cmd != "generate" {
 			must = append(must, "lead")
